@@ -11,7 +11,7 @@ WEIGHTS = {"put_new": 9, "put_same": 2, "put_reser": 1, "put_change": 4, "put_re
            "delete": 7, "delete_missing": 0.5, "delete_cond_stale": 0.5, "mkcol_new": 0.5, "mkcol_existing": 0.2, "delete_col": 0.2, "proppatch": 0.3, "read": 1, "restart": 0.6,
            "put_missing_col": 0.1, "put_nouid": 1.5}
 MON = [monitors.C06Monitor]
-DKW = {"pool": 7, "uids": 6, "audit_every": 6, "kinds": ("calendar",)}
+DKW = {"pool": 7, "uids": 7, "audit_every": 6, "kinds": ("calendar",)}
 
 
 def run_shard(args):
